@@ -13,6 +13,8 @@ HEADER = ("From Coq Require Import List ZArith QArith NArith.\nFrom PV Require I
 
 
 def model_expr(program, inst):
+    if hasattr(program, "model_expr"):
+        return program.model_expr(inst)
     base = P.coq_rel("t", inst["t"], "(Some %d%%N)" % P.nid("t"), P.inst_cols(inst, "t"))
     pg = program.coq().replace("U_TABLE", P.coq_rel("u", inst["u"], "None", P.inst_cols(inst, "u"))).replace("T_TABLE", P.coq_rel("t", inst["t"], "None", P.inst_cols(inst, "t")))
     pg = pg.replace("U_COLS", P.coq_names(P.inst_cols(inst, "u")))
